@@ -22,6 +22,7 @@ Tolerances (derived)
 """
 import numpy as np
 
+from vmon import own
 from vmon import contracts, taps, world
 from vmon import refmodel as R
 
@@ -55,7 +56,8 @@ BUDGET = {
 REQUIRED = dict(
     monitors=['flux:overlap-mean', 'flux:error-quadrature', 'flux:within-overlapping-minmax', 'flux:grid',
               'flux:constant-stays-constant', 'flux:linearity', 'flux:native-order-invariance',
-              'flux:target-order-invariance', 'simple:plain-mean', 'native:unchanged', 'bin_model:equals-bindown-of-grid-and-spectrum'],
+              'flux:target-order-invariance', 'simple:plain-mean', 'native:unchanged', 'bin_model:equals-bindown-of-grid-and-spectrum',
+              'caller-input-left-alone', 'earlier-result-stays-as-returned'],
     classes=['native:constR', 'native:linear', 'native:log', 'native:edges', 'native:edges-gaps', 'native:res-widths',
              'native:scalar-width', 'native-widths:derived', 'native-widths:nonuniform-array',
              'target:nested', 'target:wide', 'target:narrow', 'target:overlapping', 'target:gaps',
@@ -65,7 +67,7 @@ REQUIRED = dict(
              'ndim:1', 'ndim:2', 'error:yes', 'error:no', 'native-order:shuffled', 'target-order:shuffled',
              'call:2d-with-error', 'route:bin_model', 'route:forward-model', 'same-binner:narrower-widths',
              'same-binner:derived-widths', 'same-binner:other-grid-same-length', 'same-binner:first-again',
-             'same-binner:other-spacing-same-ends-new-binner', 'target:integer-centres',
+             'same-binner:other-spacing-same-ends-new-binner', 'same-binner:same-arrays-refilled-in-place', 'target:integer-centres',
              'bin_model:again:same', 'bin_model:again:other-spacing', 'bin_model:again:shuffled', 'bin_model:again:other-spectrum'])
 EPS = float(np.finfo(float).eps)
 RTOL = 1e-12
@@ -692,7 +694,31 @@ def wl_flux(ctx, rng):
     steps = []
     for _ in range(int(rng.integers(1, 4))):
         kind = ['narrower-widths', 'derived-widths', 'other-grid-same-length', 'first-again',
-                'other-spacing-same-ends-new-binner'][rng.integers(0, 5)]
+                'other-spacing-same-ends-new-binner', 'same-arrays-refilled-in-place'][rng.integers(0, 6)]
+        if kind == 'same-arrays-refilled-in-place':
+            # the caller's OWN work arrays (grid, spectrum, widths) are handed over, refilled in place with another
+            # native grid of the same length (shifted and rescaled widths; or the same rows in another order) and
+            # another spectrum, and handed over again -- the same objects, other content
+            led = own.Ledger(ctx, 'flux-work-arrays')
+            cw, fw, ww = c.copy(), np.array(f, dtype=float, copy=True), nw.copy()
+            for rep in range(2):
+                led.lend(cw, 'native grid'), led.lend(fw, 'spectrum'), led.lend(ww, 'native widths')
+                r_ = guarded(B.bindown, cw, fw, grid_width=ww)
+                led.settle('bindown on the caller\'s work arrays')
+                if r_ is not None:
+                    for a_, l_ in zip(r_, ('grid', 'values', 'errors', 'widths')):
+                        led.keep(a_, 'bindown result %d: %s' % (rep, l_))
+                if rng.random() < 0.5:
+                    shift = float(rng.uniform(-0.4, 0.4)) * float(np.min(nw))
+                    led.refill(cw, c + shift), led.refill(ww, nw * float(rng.uniform(0.5, 1.0)))
+                    g_ = gen_spectrum(rng, c, 1)                     # another spectrum on the shifted grid (every row)
+                    led.refill(fw, np.broadcast_to(g_, fw.shape) * (1.0 + 0.1 * np.arange(fw.shape[0])[:, None] if fw.ndim == 2 else 1.0))
+                else:
+                    pp = rng.permutation(n)
+                    led.refill(cw, c[pp]), led.refill(ww, nw[pp]), led.refill(fw, np.array(f, dtype=float)[..., pp] * 1.5)
+            led.settle('later calls on the same binner')
+            steps.append(kind)
+            continue
         if kind == 'other-spacing-same-ends-new-binner':
             # ANOTHER binner object, a native grid with the same number of points and the same end points but the
             # other spacing (linear <-> geometric), widths derived: nothing remembered from the first grid -- by this
